@@ -28,9 +28,9 @@ DEFAULT_POLICIES = {
 }
 # which model-provided policies each property adds when the model offers them
 EXTRA_POLICIES = {
-    "C04": ["frontier", "complete", "collide"], "C05": ["frontier", "collide", "complete"], "C06": ["complete", "collide", "greedy", "frontier"],
-    "C07": ["frontier", "collide", "complete"], "C08": ["complete", "greedy", "frontier"], "C09": ["complete", "collide", "frontier"],
-    "C11": ["complete", "collide", "greedy", "lazy"], "C12": ["complete", "frontier", "collide"],
+    "C04": ["frontier", "complete", "collide", "convoy"], "C05": ["frontier", "collide", "complete", "convoy"], "C06": ["complete", "collide", "greedy", "frontier"],
+    "C07": ["frontier", "collide", "complete", "convoy"], "C08": ["complete", "greedy", "frontier"], "C09": ["complete", "collide", "frontier"],
+    "C11": ["complete", "collide", "greedy", "lazy"], "C12": ["complete", "frontier", "collide", "convoy"],
 }
 PROBES = {"C04": "all", "C05": "all", "C09": "some", "C07": "some"}
 
